@@ -405,9 +405,12 @@ class Idempotence(object):
     def after_op(self, drv, op, info):
         root = drv.root
         rng = self.rng
-        declared_now = bool(root.bankrupt) and not self.k5_window
-        if root.bankrupt:
+        # K5 lasts from the update that declares the bankruptcy until the next completed ROOT update (a redundant update of a sub-strategy
+        # node does not end it)
+        if root.bankrupt and not self.k5_window:
             self.k5_window = True
+            self.k5_pending = True
+        declared_now = bool(root.bankrupt) and getattr(self, "k5_pending", False)
         a = ins.raw(root)
         calls = []
         for _ in range(rng.randint(1, 3)):
@@ -418,6 +421,8 @@ class Idempotence(object):
                 m = rng.choice(ins.strategies(root))
                 m.update(drv.dt)
                 calls.append("%s.update" % m.full_name)
+        if "root.update" in calls:
+            self.k5_pending = False
         b = ins.raw(root)
         d = ins.diff_raw(a, b)
         bump(drv.cnt, "idempotence_evals")
@@ -556,5 +561,9 @@ class Freshness(object):
 
         bump(drv.cnt, "freshness_evals")
         if not ins.same(norm(va), norm(vb)):
-            drv.violation("c08_stale_read", after=op, node=name, prop=pr, first_read=va if not hasattr(va, "index") else list(va.values)[-3:],
+            mech = "c08_stale_read"
+            if pr == "position" and B.bankrupt and not root.bankrupt:
+                # K15: `position` is documented as needing no refresh, but the pending update is the one that declares bankruptcy and liquidates
+                mech = "k15_position_read_before_liquidating_update"
+            drv.violation(mech, after=op, node=name, prop=pr, first_read=va if not hasattr(va, "index") else list(va.values)[-3:],
                           after_update=vb if not hasattr(vb, "index") else list(vb.values)[-3:])
